@@ -11,6 +11,10 @@ Cases (whitespace separated; bytes in lower-case hex, `-` = empty):
   el <kind> <ns> <key> <attrs>
       kind ∈ id class has; attrs = `name:value,name:value…` (hex, `-` = none / empty value)
       → `1`/`0`: `#key` / `.key` / `[key]` on an element with exactly these attributes
+  elop <op> <flag> <ns> <name> <needle> <attrs>
+      flag ∈ s i n (n = no flag: the case mode then depends on whether the lower-cased `name` is in
+      the HTML list of case-insensitive attributes)
+      → `1`/`0`: `[name op "needle" flag]` on an element with exactly these attributes
 Anything the Rust side cannot express through selector text / a tag is `bad-case` on both sides.
 A model failure branch (`none`) prints `PANIC`.
 -/
@@ -59,12 +63,18 @@ def parseOp : String → Option AttrMatch.Op
   | "pre" => some .pre | "suf" => some .suffix | "sub" => some .substring
   | _ => none
 
-/-- flag ↦ (attribute name used in the selector and the tag, parsed case sensitivity) -/
-def parseFlag : String → Option (Bytes × AttrMatch.ParsedCaseSensitivity)
-  | "s" => some ([100, 97, 116, 97, 45, 107], .explicitCaseSensitive)          -- data-k
+/-- flag ↦ (attribute name used in the selector and the tag, selector flag) -/
+def parseFlag : String → Option (Bytes × AttrMatch.AttributeFlags)
+  | "s" => some ([100, 97, 116, 97, 45, 107], .caseSensitive)                  -- data-k
   | "i" => some ([100, 97, 116, 97, 45, 107], .asciiCaseInsensitive)
-  | "d" => some ([100, 97, 116, 97, 45, 107], .caseSensitive)
-  | "h" => some ([116, 121, 112, 101], .asciiCaseInsensitiveIfInHtmlElementInHtmlDocument) -- type
+  | "d" => some ([100, 97, 116, 97, 45, 107], .caseSensitivityDependsOnName)
+  | "h" => some ([116, 121, 112, 101], .caseSensitivityDependsOnName)          -- type
+  | _ => none
+
+def parseFlag3 : String → Option AttrMatch.AttributeFlags
+  | "s" => some .caseSensitive
+  | "i" => some .asciiCaseInsensitive
+  | "n" => some .caseSensitivityDependsOnName
   | _ => none
 
 def parseNs : String → Option Bool
@@ -76,10 +86,10 @@ def showRes : Option Bool → String
 
 def runAttr (op flag ns value needle : String) : String :=
   match parseOp op, parseFlag flag, parseNs ns, ofHex value, ofHex needle with
-  | some op, some (name, cs), some isHtml, some value, some needle =>
+  | some op, some (name, fl), some isHtml, some value, some needle =>
     if !okSelectorText needle || !okAttrValue value then "bad-case" else
     let m : AttrMatch.AttributeMatcher := { attributes := [(name, value)], isHtmlElement := isHtml }
-    showRes (AttrMatch.compiledAttrExpr false (.attributeComparison name needle cs op) m)
+    showRes (AttrMatch.compiledAttrExpr false (AttrMatch.parseAttributeSelector name needle fl op) m)
   | _, _, _, _, _ => "bad-case"
 
 def parseAttrs (s : String) : Option (List (Bytes × Bytes)) :=
@@ -107,6 +117,16 @@ def runEl (kind ns key attrs : String) : String :=
     | _ => "bad-case"
   | _, _, _ => "bad-case"
 
+def runElOp (op flag ns name needle attrs : String) : String :=
+  match parseOp op, parseFlag3 flag, parseNs ns, ofHex name, ofHex needle, parseAttrs attrs with
+  | some op, some fl, some isHtml, some name, some needle, some attrs =>
+    if name.isEmpty || !okSelectorText name || !okSelectorText needle
+        || !attrs.all (fun a => okAttrName a.1 && okAttrValue a.2)
+    then "bad-case" else
+    let m : AttrMatch.AttributeMatcher := { attributes := attrs, isHtmlElement := isHtml }
+    showRes (AttrMatch.compiledAttrExpr false (AttrMatch.parseAttributeSelector name needle fl op) m)
+  | _, _, _, _, _, _ => "bad-case"
+
 def run (line : String) : String :=
   match (line.splitOn " ").filter (· ≠ "") with
   | ["nth", a, b, i] =>
@@ -116,6 +136,7 @@ def run (line : String) : String :=
     | _, _, _ => "bad-case"
   | ["attr", op, flag, ns, value, needle] => runAttr op flag ns value needle
   | ["el", kind, ns, key, attrs] => runEl kind ns key attrs
+  | ["elop", op, flag, ns, name, needle, attrs] => runElOp op flag ns name needle attrs
   | _ => "bad-case"
 
 end LolHtml.Lane.SelPure
